@@ -1,9 +1,821 @@
-//! C09 — (stub; not built yet)
+//! C09 — space-filling-curve parts are contiguous runs of the curve.
+//!
+//! ops (floats are hex bit patterns; everything after `=>` is hook-derived data the model
+//! takes as a parameter; a stale `=> …` suffix in corpus/replay lines is ignored and recomputed):
+//!
+//! `bs <key> <m> <e_0> … <e_{m-1}>`
+//!      std `binary_search` on any (also unsorted) `u64` slice.            out: `ok i` | `err i`
+//! `wq <pool> <parts> <n> <idx…> <w…> [=> <m> <pos…>]`
+//!      `weighted_quantiles` (hook) on given curve indices, then the id lookup of
+//!      `partition_indexed` (std `binary_search`).                         out: `ok <src> | <pos…> | <ids…>`
+//! `hil <dim> <pool> <order> <parts> <n> <coords…> <w…> [=> <idx…> <m> <pos…>]`
+//!      `HilbertCurve { part_count, order }.partition`; indices and split positions from the hooks.
+//!                                                                          out: `ok <src> | <pos…> | <ids…>`
+//!      `<src>` = `m` when every weight is a non-negative integer (sum < 2^53): the model then
+//!      runs its own refinement and the positions are compared too; `h`: positions are taken
+//!      from the hook (float sums depend on the summation order).
+//! `zc <dim> <pool> <order> <parts> <n> <coords…> [=> <code…>]`
+//!      `ZCurve { part_count, order }.partition`; per-point region codes and the reordered
+//!      permutation from the hooks.      out: `ok | <codes along the permutation> | <sorted code:id pairs>`
+//!      (both observables are invariant under the unstable sort's order of equal codes).
+//! other outs: `ok-empty`, `err invalid-order`, `panic file:line: msg`, `hang`.
 
 use crate::common::*;
+use coupe::Partition as _;
+use coupe::{Point2D, Point3D};
 
-pub fn generate(_ctx: &mut Ctx) {}
+const WATCHDOG_S: u64 = 20;
+const UNWRITTEN: usize = usize::MAX;
+
+// ------------------------------------------------------------------ helpers
+
+fn hex(x: f64) -> String {
+    format!("{:x}", x.to_bits())
+}
+
+fn list<T: std::fmt::Display>(xs: &[T]) -> String {
+    if xs.is_empty() {
+        "-".into()
+    } else {
+        join(xs)
+    }
+}
+
+fn pts2(c: &[f64]) -> Vec<Point2D> {
+    c.chunks(2).map(|p| Point2D::new(p[0], p[1])).collect()
+}
+
+fn pts3(c: &[f64]) -> Vec<Point3D> {
+    c.chunks(3).map(|p| Point3D::new(p[0], p[1], p[2])).collect()
+}
+
+/// Weights for which every summation order gives the same `f64` sums.
+fn exact_weights(ws: &[f64]) -> bool {
+    let mut sum = 0u64;
+    for &w in ws {
+        if !(w.is_finite() && w >= 0.0 && w == w.trunc() && w < 9007199254740992.0) || (w == 0.0 && w.is_sign_negative()) {
+            return false;
+        }
+        sum = sum.saturating_add(w as u64);
+    }
+    sum < (1u64 << 53)
+}
+
+struct Toks<'a>(std::str::SplitWhitespace<'a>);
+
+impl<'a> Toks<'a> {
+    fn usize(&mut self) -> Option<usize> {
+        self.0.next()?.parse().ok()
+    }
+    fn u64(&mut self) -> Option<u64> {
+        self.0.next()?.parse().ok()
+    }
+    fn f64(&mut self) -> Option<f64> {
+        Some(f64::from_bits(u64::from_str_radix(self.0.next()?, 16).ok()?))
+    }
+    fn many<T>(&mut self, n: usize, mut f: impl FnMut(&mut Self) -> Option<T>) -> Option<Vec<T>> {
+        let mut v = Vec::with_capacity(n.min(1 << 16));
+        for _ in 0..n {
+            v.push(f(self)?);
+        }
+        Some(v)
+    }
+    /// end of the input part: nothing left or the `=>` marker
+    fn at_end(&mut self) -> bool {
+        matches!(self.0.next(), None | Some("=>"))
+    }
+}
+
+fn finish(ctx: &mut Ctx, op: String, out: String, nontrivial: bool, verdict: Option<(String, String)>) {
+    ctx.count(&format!("out:{}:{}", op.split(' ').next().unwrap_or(""), out.split(' ').next().unwrap_or("")));
+    let idx = ctx.record(op, out, nontrivial);
+    if let Some((sig, what)) = verdict {
+        ctx.fail(idx, &sig, what);
+    }
+}
+
+fn caught_out<T>(c: &Caught<T>) -> Option<(String, Option<(String, String)>)> {
+    match c {
+        Caught::Ok(_) => None,
+        Caught::Panic(m) => Some((format!("panic {}", m), Some(("panic".to_string(), format!("{} [{}]", m, panic_sig(m)))))),
+        Caught::Hang => Some(("hang".into(), Some(("hang".to_string(), format!("no answer within {} s", WATCHDOG_S))))),
+    }
+}
+
+// ------------------------------------------------------------------ bs
+
+fn run_bs(ctx: &mut Ctx, op: &str, t: &mut Toks) -> Option<()> {
+    let key = t.u64()?;
+    let m = t.usize()?;
+    let s = t.many(m, |t| t.u64())?;
+    if !t.at_end() {
+        return None;
+    }
+    let out = match s.binary_search(&key) {
+        Ok(i) => format!("ok {}", i),
+        Err(i) => format!("err {}", i),
+    };
+    let sorted = s.windows(2).all(|w| w[0] <= w[1]);
+    ctx.count(if sorted { "bs:sorted" } else { "bs:unsorted" });
+    // oracle: the documented contract on sorted slices; the bound always
+    let r = s.binary_search(&key);
+    let mut v = None;
+    let i = match r {
+        Ok(i) | Err(i) => i,
+    };
+    if i > s.len() {
+        v = Some(("bsearch-out-of-range".to_string(), format!("{} > len {}", i, s.len())));
+    } else if sorted {
+        let good = match r {
+            Ok(i) => s[i] == key,
+            Err(i) => s[..i].iter().all(|x| *x < key) && s[i..].iter().all(|x| *x > key),
+        };
+        if !good {
+            v = Some(("bsearch-contract".to_string(), format!("{:?} on a sorted slice", r)));
+        }
+    }
+    finish(ctx, op.to_string(), out, m >= 2, v);
+    Some(())
+}
+
+// ------------------------------------------------------------------ Hilbert
+
+/// The property on the implementation's output, stated naively: smaller curve index ⇒ part id
+/// not larger (and equal indices share a part), every id below `parts`.
+fn hilbert_oracle(idx: &[u64], ids: &[usize], parts: usize) -> Option<(String, String)> {
+    if let Some(p) = ids.iter().position(|&i| i >= parts) {
+        return Some(("hilbert-id-out-of-range".into(), format!("point {} has id {} with {} parts", p, ids[p], parts)));
+    }
+    let mut ord: Vec<usize> = (0..idx.len()).collect();
+    ord.sort_by_key(|&p| (idx[p], ids[p]));
+    for w in ord.windows(2) {
+        let (a, b) = (w[0], w[1]);
+        if idx[a] < idx[b] && ids[a] > ids[b] {
+            return Some((
+                "hilbert-not-monotone".into(),
+                format!("index {} < {} but part {} > {} (points {}, {})", idx[a], idx[b], ids[a], ids[b], a, b),
+            ));
+        }
+        if idx[a] == idx[b] && ids[a] != ids[b] {
+            return Some((
+                "hilbert-same-index-split".into(),
+                format!("index {} in parts {} and {} (points {}, {})", idx[a], ids[a], ids[b], a, b),
+            ));
+        }
+    }
+    None
+}
+
+fn hil_nontrivial(idx: &[u64], parts: usize) -> bool {
+    let mut d = idx.to_vec();
+    d.sort_unstable();
+    d.dedup();
+    parts >= 2 && d.len() >= 2
+}
+
+fn run_wq(ctx: &mut Ctx, t: &mut Toks) -> Option<()> {
+    let pool = t.usize()?;
+    let parts = t.usize()?;
+    let n = t.usize()?;
+    let idx = t.many(n, |t| t.u64())?;
+    let ws = t.many(n, |t| t.f64())?;
+    if !t.at_end() || pool == 0 || pool > 64 {
+        return None;
+    }
+    let base = format!(
+        "wq {} {} {} {} {}",
+        pool,
+        parts,
+        n,
+        join(&idx),
+        join(&ws.iter().map(|w| hex(*w)).collect::<Vec<_>>())
+    )
+    .split_whitespace()
+    .collect::<Vec<_>>()
+    .join(" ");
+    let (idx2, ws2) = (idx.clone(), ws.clone());
+    let r = catch_timeout(WATCHDOG_S, move || {
+        with_pool(pool, || coupe::verif::hilbert::weighted_quantiles(&idx2, &ws2, parts))
+    });
+    if let Some((out, v)) = caught_out(&r) {
+        // the only panics inside the contract would be findings; parts = 0 / n = 0 are malformed
+        let v = if parts == 0 || n == 0 { None } else { v };
+        ctx.count("wq:malformed-or-failed");
+        finish(ctx, base, out, false, v);
+        return Some(());
+    }
+    let Caught::Ok(pos) = r else { unreachable!() };
+    // `partition_indexed`'s lookup
+    let ids: Vec<usize> = idx
+        .iter()
+        .map(|i| match pos.binary_search(i) {
+            Ok(p) | Err(p) => p,
+        })
+        .collect();
+    let src = if exact_weights(&ws) { "m" } else { "h" };
+    ctx.count(&format!("wq:src:{}", src));
+    let mut v = hilbert_oracle(&idx, &ids, parts);
+    if v.is_none() && !pos.windows(2).all(|w| w[0] <= w[1]) {
+        v = Some(("quantiles-unsorted".into(), format!("positions {:?}", pos)));
+    }
+    if v.is_none() && pos.len() + 1 != parts {
+        v = Some(("quantiles-count".into(), format!("{} positions for {} parts", pos.len(), parts)));
+    }
+    let out = format!("ok {} | {} | {}", src, list(&pos), list(&ids));
+    let op = format!("{} => {} {}", base, pos.len(), join(&pos)).trim_end().to_string();
+    finish(ctx, op, out, hil_nontrivial(&idx, parts), v);
+    Some(())
+}
+
+struct HilRan {
+    res: Result<(), String>,
+    ids: Vec<usize>,
+    idx: Vec<u64>,
+    pos: Vec<u64>,
+}
+
+fn run_hil(ctx: &mut Ctx, t: &mut Toks) -> Option<()> {
+    let dim = t.usize()?;
+    let pool = t.usize()?;
+    let order = t.u64()?;
+    let parts = t.usize()?;
+    let n = t.usize()?;
+    if !(dim == 2 || dim == 3) || pool == 0 || pool > 64 || order > u32::MAX as u64 {
+        return None;
+    }
+    let coords = t.many(n * dim, |t| t.f64())?;
+    let ws = t.many(n, |t| t.f64())?;
+    if !t.at_end() {
+        return None;
+    }
+    let base = format!(
+        "hil {} {} {} {} {} {} {}",
+        dim,
+        pool,
+        order,
+        parts,
+        n,
+        join(&coords.iter().map(|w| hex(*w)).collect::<Vec<_>>()),
+        join(&ws.iter().map(|w| hex(*w)).collect::<Vec<_>>())
+    )
+    .split_whitespace()
+    .collect::<Vec<_>>()
+    .join(" ");
+    let max_order = if dim == 2 { 32 } else { 21 };
+    let (coords2, ws2) = (coords.clone(), ws.clone());
+    let r = catch_timeout(WATCHDOG_S, move || {
+        with_pool(pool, || {
+            let mut ids = vec![UNWRITTEN; n];
+            let mut alg = coupe::HilbertCurve { part_count: parts, order: order as u32 };
+            let (res, idx) = if dim == 2 {
+                let p = pts2(&coords2);
+                let r = alg.partition(&mut ids, (&p[..], ws2.clone())).map_err(|e| format!("{:?}", e));
+                let idx = if r.is_ok() && n > 0 { coupe::verif::hilbert::indices_2d(&p, order as usize) } else { vec![] };
+                (r, idx)
+            } else {
+                let p = pts3(&coords2);
+                let r = alg.partition(&mut ids, (&p[..], ws2.clone())).map_err(|e| format!("{:?}", e));
+                let idx = if r.is_ok() && n > 0 { coupe::verif::hilbert::indices_3d(&p, order as usize) } else { vec![] };
+                (r, idx)
+            };
+            let pos = if res.is_ok() && n > 0 {
+                coupe::verif::hilbert::weighted_quantiles(&idx, &ws2, parts)
+            } else {
+                vec![]
+            };
+            HilRan { res, ids, idx, pos }
+        })
+    });
+    if let Some((out, v)) = caught_out(&r) {
+        let v = if parts == 0 { None } else { v };
+        ctx.count("hil:malformed-or-failed");
+        finish(ctx, base, out, false, v);
+        return Some(());
+    }
+    let Caught::Ok(ran) = r else { unreachable!() };
+    match ran.res {
+        Err(e) => {
+            let (out, v) = if e.starts_with("InvalidOrder") {
+                let v = if order <= max_order {
+                    Some(("hilbert-spurious-invalid-order".to_string(), e.clone()))
+                } else {
+                    None
+                };
+                ("err invalid-order".to_string(), v)
+            } else {
+                (format!("err {}", e), Some(("hilbert-unexpected-error".to_string(), e.clone())))
+            };
+            finish(ctx, base, out, false, v);
+        }
+        Ok(()) if n == 0 => finish(ctx, base, "ok-empty".into(), false, None),
+        Ok(()) => {
+            let mut v = None;
+            if order > max_order {
+                v = Some(("hilbert-order-accepted".to_string(), format!("order {} accepted", order)));
+            }
+            if v.is_none() {
+                v = hilbert_oracle(&ran.idx, &ran.ids, parts);
+            }
+            let src = if exact_weights(&ws) { "m" } else { "h" };
+            ctx.count(&format!("hil:src:{}", src));
+            ctx.count(&format!("hil:dim{}:pool{}", dim, pool));
+            let out = format!("ok {} | {} | {}", src, list(&ran.pos), list(&ran.ids));
+            let op = format!("{} => {} {} {}", base, join(&ran.idx), ran.pos.len(), join(&ran.pos)).trim_end().to_string();
+            finish(ctx, op, out, hil_nontrivial(&ran.idx, parts), v);
+        }
+    }
+    Some(())
+}
+
+// ------------------------------------------------------------------ ZCurve
+
+fn code_str(c: &[u8]) -> String {
+    if c.is_empty() {
+        "e".into()
+    } else {
+        c.iter().map(|d| char::from(b'0' + *d)).collect()
+    }
+}
+
+/// The property on the implementation's output: along the points sorted by Z-order cell the ids
+/// never decrease, part sizes differ by at most one, every id is below `parts`; the reordered
+/// permutation itself is sorted by cell.
+fn zcurve_oracle(codes: &[Vec<u8>], perm: &[usize], ids: &[usize], parts: usize) -> Option<(String, String)> {
+    let n = ids.len();
+    if let Some(p) = ids.iter().position(|&i| i >= parts) {
+        return Some(("zcurve-id-out-of-range".into(), format!("point {} has id {} with {} parts", p, ids[p], parts)));
+    }
+    let mut ord: Vec<usize> = (0..n).collect();
+    ord.sort_by(|&a, &b| (&codes[a], ids[a]).cmp(&(&codes[b], ids[b])));
+    for w in ord.windows(2) {
+        if ids[w[0]] > ids[w[1]] {
+            return Some((
+                "zcurve-not-monotone".into(),
+                format!(
+                    "cell {} < {} but part {} > {} (points {}, {})",
+                    code_str(&codes[w[0]]),
+                    code_str(&codes[w[1]]),
+                    ids[w[0]],
+                    ids[w[1]],
+                    w[0],
+                    w[1]
+                ),
+            ));
+        }
+    }
+    let mut sizes = vec![0usize; parts];
+    for &i in ids {
+        sizes[i] += 1;
+    }
+    let (mn, mx) = (sizes.iter().min().copied().unwrap_or(0), sizes.iter().max().copied().unwrap_or(0));
+    if mx - mn > 1 {
+        return Some(("zcurve-sizes".into(), format!("part sizes range from {} to {}", mn, mx)));
+    }
+    let mut seen = vec![false; n];
+    for &p in perm {
+        if p >= n || seen[p] {
+            return Some(("zcurve-perm-not-a-permutation".into(), format!("entry {}", p)));
+        }
+        seen[p] = true;
+    }
+    if perm.len() != n {
+        return Some(("zcurve-perm-not-a-permutation".into(), format!("length {}", perm.len())));
+    }
+    for w in perm.windows(2) {
+        if codes[w[0]] > codes[w[1]] {
+            return Some((
+                "zcurve-perm-not-sorted".into(),
+                format!("cell {} before {}", code_str(&codes[w[0]]), code_str(&codes[w[1]])),
+            ));
+        }
+    }
+    None
+}
+
+struct ZcRan {
+    ids: Vec<usize>,
+    perm: Vec<usize>,
+    codes: Vec<Vec<u8>>,
+}
+
+fn run_zc(ctx: &mut Ctx, t: &mut Toks) -> Option<()> {
+    let dim = t.usize()?;
+    let pool = t.usize()?;
+    let order = t.u64()?;
+    let parts = t.usize()?;
+    let n = t.usize()?;
+    if !(dim == 2 || dim == 3) || pool == 0 || pool > 64 || order > u32::MAX as u64 {
+        return None;
+    }
+    let coords = t.many(n * dim, |t| t.f64())?;
+    if !t.at_end() {
+        return None;
+    }
+    let base = format!(
+        "zc {} {} {} {} {} {}",
+        dim,
+        pool,
+        order,
+        parts,
+        n,
+        join(&coords.iter().map(|w| hex(*w)).collect::<Vec<_>>())
+    )
+    .split_whitespace()
+    .collect::<Vec<_>>()
+    .join(" ");
+    let coords2 = coords.clone();
+    let r = catch_timeout(WATCHDOG_S, move || {
+        with_pool(pool, || {
+            let mut ids = vec![UNWRITTEN; n];
+            let mut alg = coupe::ZCurve { part_count: parts, order: order as u32 };
+            if dim == 2 {
+                let p = pts2(&coords2);
+                alg.partition(&mut ids, &p[..]).unwrap();
+                let perm = coupe::verif::z_curve::permutation::<2>(&p, order as u32);
+                let codes = coupe::verif::z_curve::codes::<2>(&p, order as u32);
+                ZcRan { ids, perm, codes }
+            } else {
+                let p = pts3(&coords2);
+                alg.partition(&mut ids, &p[..]).unwrap();
+                let perm = coupe::verif::z_curve::permutation::<3>(&p, order as u32);
+                let codes = coupe::verif::z_curve::codes::<3>(&p, order as u32);
+                ZcRan { ids, perm, codes }
+            }
+        })
+    });
+    if let Some((out, v)) = caught_out(&r) {
+        // malformed: no part at all, or an order the hash type cannot hold
+        let v = if parts == 0 || order > 42 { None } else { v };
+        ctx.count("zc:malformed-or-failed");
+        finish(ctx, base, out, false, v);
+        return Some(());
+    }
+    let Caught::Ok(ran) = r else { unreachable!() };
+    let v = zcurve_oracle(&ran.codes, &ran.perm, &ran.ids, parts);
+    let a: Vec<String> = ran.perm.iter().map(|&p| ran.codes.get(p).map(|c| code_str(c)).unwrap_or("?".into())).collect();
+    let mut pairs: Vec<(&Vec<u8>, usize)> = ran.codes.iter().zip(ran.ids.iter().copied()).collect();
+    pairs.sort();
+    let b: Vec<String> = pairs.iter().map(|(c, i)| format!("{}:{}", code_str(c), i)).collect();
+    let out = format!("ok | {} | {}", list(&a), list(&b));
+    let op = format!("{} => {}", base, join(&ran.codes.iter().map(|c| code_str(c)).collect::<Vec<_>>()))
+        .trim_end()
+        .to_string();
+    let mut distinct = ran.codes.clone();
+    distinct.sort();
+    distinct.dedup();
+    ctx.count(&format!("zc:dim{}:pool{}", dim, pool));
+    ctx.count(if parts > n { "zc:parts>n" } else if parts == n { "zc:parts=n" } else { "zc:parts<n" });
+    ctx.count(if distinct.len() == n { "zc:codes-all-distinct" } else { "zc:codes-with-ties" });
+    finish(ctx, op, out, n >= 2 && parts >= 2 && distinct.len() >= 2, v);
+    Some(())
+}
 
 pub fn run_op(ctx: &mut Ctx, op: &str) {
-    ctx.record(op.to_string(), "bad-op".into(), false);
+    let mut t = Toks(op.split_whitespace());
+    let r = match t.0.next() {
+        Some("bs") => run_bs(ctx, op, &mut t),
+        Some("wq") => run_wq(ctx, &mut t),
+        Some("hil") => run_hil(ctx, &mut t),
+        Some("zc") => run_zc(ctx, &mut t),
+        _ => None,
+    };
+    if r.is_none() {
+        ctx.record(op.to_string(), "bad-op".into(), false);
+    }
+}
+
+// ------------------------------------------------------------------ generator
+
+const POOLS: [usize; 4] = [1, 1, 4, 16];
+
+fn gen_n(ctx: &mut Ctx) -> usize {
+    let big = if ctx.quick() { 600 } else { 2000 };
+    match ctx.rng.usize(100) {
+        0..=9 => 1 + ctx.rng.usize(3),
+        10..=49 => 2 + ctx.rng.usize(15),
+        50..=84 => 10 + ctx.rng.usize(90),
+        85..=96 => 100 + ctx.rng.usize(300),
+        _ => 400 + ctx.rng.usize(big - 399),
+    }
+}
+
+fn gen_parts(ctx: &mut Ctx, n: usize) -> usize {
+    match ctx.rng.usize(20) {
+        0 => 1,
+        1 => n,
+        2 | 3 => n + 1 + ctx.rng.usize(n + 3),
+        4..=6 => 2,
+        7..=12 => 1 + ctx.rng.usize(n.min(16)),
+        _ => 1 + ctx.rng.usize(n),
+    }
+}
+
+/// Point families. For pools with more than one thread only families whose inertia-matrix sums
+/// are exact (coordinates `n * m * 2^e`, `|m| <= 256`, so the centroid and every product are
+/// exact integers below 2^53) are used: rayon's reduction tree is not reproducible there and the
+/// three calls (partition, index hook, code hook) must see the same bounding box (K6, property C06).
+fn gen_points(ctx: &mut Ctx, n: usize, dim: usize, exact: bool) -> (Vec<f64>, &'static str) {
+    let shape = if !exact && ctx.rng.chance(3, 5) { 5 + ctx.rng.usize(3) } else { ctx.rng.usize(5) };
+    let scale = if exact { n as f64 * [1.0, 0.5, 0.001953125, 1024.0][ctx.rng.usize(4)] } else { 1.0 };
+    let mut c = Vec::with_capacity(n * dim);
+    let name = match shape {
+        0 => {
+            // small integer grid, many ties
+            let side = 1 + ctx.rng.usize(6) as i64;
+            for _ in 0..n * dim {
+                c.push(ctx.rng.range(0, side) as f64 * scale);
+            }
+            "grid-small"
+        }
+        1 => {
+            for _ in 0..n * dim {
+                c.push(ctx.rng.range(-256, 256) as f64 * scale);
+            }
+            "grid-wide"
+        }
+        2 => {
+            // clusters
+            let k = 1 + ctx.rng.usize(4);
+            let centres: Vec<i64> = (0..k * dim).map(|_| ctx.rng.range(-200, 200)).collect();
+            for _ in 0..n {
+                let j = ctx.rng.usize(k);
+                for d in 0..dim {
+                    c.push((centres[j * dim + d] + ctx.rng.range(-8, 8)) as f64 * scale);
+                }
+            }
+            "clusters"
+        }
+        3 => {
+            // duplicates of a few points
+            let k = 1 + ctx.rng.usize(3);
+            let base: Vec<i64> = (0..k * dim).map(|_| ctx.rng.range(-50, 50)).collect();
+            for _ in 0..n {
+                let j = ctx.rng.usize(k);
+                for d in 0..dim {
+                    c.push(base[j * dim + d] as f64 * scale);
+                }
+            }
+            "duplicates"
+        }
+        4 => {
+            // a line (degenerate box), in order or shuffled
+            let shuffled = ctx.rng.chance(1, 2);
+            let mut xs: Vec<i64> = (0..n as i64).collect();
+            if shuffled {
+                ctx.rng.shuffle(&mut xs);
+            }
+            let dir: Vec<i64> = (0..dim).map(|d| if d == 0 { 1 } else { ctx.rng.range(-1, 1) }).collect();
+            for x in xs {
+                for d in 0..dim {
+                    c.push(((x % 257) * dir[d]) as f64 * scale);
+                }
+            }
+            "line"
+        }
+        5 => {
+            for _ in 0..n * dim {
+                c.push((ctx.rng.below(1 << 53) as f64) / (1u64 << 53) as f64);
+            }
+            "uniform"
+        }
+        6 => {
+            // anisotropic uniform cloud, rotated
+            let (s, co) = (0.6f64, 0.8f64);
+            for _ in 0..n {
+                let x = (ctx.rng.below(1 << 40) as f64) / (1u64 << 40) as f64 * 100.0;
+                let y = (ctx.rng.below(1 << 40) as f64) / (1u64 << 40) as f64;
+                c.push(co * x - s * y);
+                c.push(s * x + co * y);
+                if dim == 3 {
+                    c.push((ctx.rng.below(1 << 40) as f64) / (1u64 << 40) as f64 * 3.0);
+                }
+            }
+            "rotated"
+        }
+        _ => {
+            // huge / tiny magnitudes
+            let e = [1e-200, 1e-9, 1e9, 1e150][ctx.rng.usize(4)];
+            for _ in 0..n * dim {
+                c.push(ctx.rng.range(-1000, 1000) as f64 * e);
+            }
+            "magnitude"
+        }
+    };
+    (c, name)
+}
+
+fn gen_weights(ctx: &mut Ctx, n: usize, exact: bool) -> (Vec<f64>, &'static str) {
+    let mode = if !exact && ctx.rng.chance(1, 2) { 6 + ctx.rng.usize(2) } else { ctx.rng.usize(6) };
+    let mut w: Vec<f64> = Vec::with_capacity(n);
+    let name = match mode {
+        0 => {
+            w.resize(n, 1.0);
+            "ones"
+        }
+        1 => {
+            for _ in 0..n {
+                w.push(ctx.rng.range(1, 10) as f64);
+            }
+            "small-int"
+        }
+        2 => {
+            for _ in 0..n {
+                w.push(ctx.rng.range(1, 3) as f64);
+            }
+            let k = ctx.rng.usize(n);
+            w[k] = ctx.rng.range(100, 100000) as f64;
+            "one-dominant"
+        }
+        3 => {
+            for _ in 0..n {
+                w.push(if ctx.rng.chance(2, 3) { 0.0 } else { ctx.rng.range(1, 5) as f64 });
+            }
+            "many-zero"
+        }
+        4 => {
+            w.resize(n, 0.0);
+            "all-zero"
+        }
+        5 => {
+            for _ in 0..n {
+                w.push((1u64 << ctx.rng.usize(40)) as f64);
+            }
+            "powers-of-two"
+        }
+        6 => {
+            for _ in 0..n {
+                w.push((ctx.rng.below(1 << 53) as f64) / (1u64 << 53) as f64);
+            }
+            "uniform-float"
+        }
+        _ => {
+            for _ in 0..n {
+                w.push((ctx.rng.below(1 << 30) as f64 + 1.0) * [1e-12, 0.1, 1e7][ctx.rng.usize(3)]);
+            }
+            "float-skewed"
+        }
+    };
+    (w, name)
+}
+
+fn fmt_f(xs: &[f64]) -> String {
+    join(&xs.iter().map(|w| hex(*w)).collect::<Vec<_>>())
+}
+
+fn gen_hil(ctx: &mut Ctx) {
+    let dim = if ctx.rng.chance(3, 5) { 2 } else { 3 };
+    let pool = *ctx.rng.pick(&POOLS);
+    let n = gen_n(ctx);
+    let parts = gen_parts(ctx, n);
+    let max_order = if dim == 2 { 32 } else { 21 };
+    let order = match ctx.rng.usize(6) {
+        0 => max_order,
+        1 => 1,
+        2 => 1 + ctx.rng.usize(4),
+        _ => 1 + ctx.rng.usize(max_order),
+    };
+    let exact = pool > 1 || ctx.rng.chance(1, 4);
+    let (c, shape) = gen_points(ctx, n, dim, exact);
+    let wexact = pool > 1 || ctx.rng.chance(1, 2);
+    let (w, wname) = gen_weights(ctx, n, wexact);
+    ctx.count(&format!("hil:shape:{}", shape));
+    ctx.count(&format!("hil:weights:{}", wname));
+    ctx.count(if parts > n { "hil:parts>n" } else if parts == n { "hil:parts=n" } else { "hil:parts<n" });
+    let op = format!("hil {} {} {} {} {} {} {}", dim, pool, order, parts, n, fmt_f(&c), fmt_f(&w));
+    run_op(ctx, &op);
+}
+
+fn gen_wq(ctx: &mut Ctx) {
+    let pool = *ctx.rng.pick(&POOLS);
+    let n = if ctx.rng.chance(1, 2) { 1 + ctx.rng.usize(12) } else { gen_n(ctx).min(500) };
+    let parts = gen_parts(ctx, n).max(1);
+    let exact = pool > 1 || ctx.rng.chance(2, 3);
+    let shape = ctx.rng.usize(6);
+    let idx: Vec<u64> = (0..n)
+        .map(|_| match shape {
+            0 => ctx.rng.below(16),
+            1 => ctx.rng.below(1 << 20),
+            2 => ctx.rng.next(),
+            3 => u64::MAX - ctx.rng.below(64),
+            4 => {
+                // few distinct values far apart
+                [0u64, 1, 1 << 32, u64::MAX][ctx.rng.usize(4)]
+            }
+            _ => ctx.rng.below(2 * n as u64 + 1),
+        })
+        .collect();
+    let (w, wname) = gen_weights(ctx, n, exact);
+    ctx.count(&format!("wq:shape:{}", shape));
+    ctx.count(&format!("wq:weights:{}", wname));
+    let op = format!("wq {} {} {} {} {}", pool, parts, n, join(&idx), fmt_f(&w));
+    run_op(ctx, &op);
+}
+
+fn gen_zc(ctx: &mut Ctx) {
+    let dim = if ctx.rng.chance(3, 5) { 2 } else { 3 };
+    let pool = *ctx.rng.pick(&POOLS);
+    let n = gen_n(ctx);
+    let parts = gen_parts(ctx, n);
+    let order = match ctx.rng.usize(6) {
+        0 => 0,
+        1 => 1,
+        2 => 12,
+        _ => ctx.rng.usize(13),
+    };
+    let exact = pool > 1 || ctx.rng.chance(1, 4);
+    let (c, shape) = gen_points(ctx, n, dim, exact);
+    ctx.count(&format!("zc:shape:{}", shape));
+    ctx.count(&format!("zc:order:{}", order));
+    let op = format!("zc {} {} {} {} {} {}", dim, pool, order, parts, n, fmt_f(&c));
+    run_op(ctx, &op);
+}
+
+pub fn generate(ctx: &mut Ctx) {
+    // (1) std binary_search: exhaustive over a small alphabet, then random slices
+    let (alpha, maxlen) = if ctx.quick() { (3u64, 6usize) } else { (4, 7) };
+    for len in 0..=maxlen {
+        let mut v = vec![0u64; len];
+        loop {
+            for key in 0..=alpha {
+                run_op(ctx, &format!("bs {} {} {}", key, len, join(&v)).trim_end().to_string());
+            }
+            let mut i = 0;
+            while i < len {
+                if v[i] + 1 < alpha {
+                    v[i] += 1;
+                    break;
+                }
+                v[i] = 0;
+                i += 1;
+            }
+            if i == len {
+                break;
+            }
+        }
+    }
+    ctx.notes.push(format!(
+        "exhaustive sub-space (binary_search): every u64 slice over 0..{} of length 0..={} (sorted or not) x keys 0..={}",
+        alpha, maxlen, alpha
+    ));
+    for _ in 0..ctx.budget(400, 8000) {
+        let cap = if ctx.rng.chance(1, 4) { 300 } else { 40 };
+        let len = ctx.rng.usize(cap);
+        let span = [4u64, 50, 1 << 40][ctx.rng.usize(3)];
+        let mut v: Vec<u64> = (0..len).map(|_| ctx.rng.below(span)).collect();
+        if ctx.rng.chance(3, 4) {
+            v.sort_unstable();
+        }
+        let key = if len > 0 && ctx.rng.chance(1, 2) { v[ctx.rng.usize(len)] } else { ctx.rng.below(span + 1) };
+        run_op(ctx, &format!("bs {} {} {}", key, len, join(&v)).trim_end().to_string());
+    }
+    // (2) ZCurve chunk table: every (n, k) up to a bound, points on a line with distinct cells
+    let bound = if ctx.quick() { 18 } else { 40 };
+    for n in 1..=bound {
+        for k in 1..=bound + 2 {
+            let dim = 2 + (n + k) % 2;
+            let mut c = Vec::with_capacity(n * dim);
+            for i in 0..n {
+                // a shuffled line: position i holds abscissa (7 i mod n') to decouple input and curve order
+                let x = (i * 7) % 41;
+                c.push(x as f64 / 64.0);
+                c.push(0.0);
+                if dim == 3 {
+                    c.push(0.0);
+                }
+            }
+            ctx.count("zc:chunk-table");
+            run_op(ctx, &format!("zc {} 1 8 {} {} {}", dim, k, n, fmt_f(&c)));
+        }
+    }
+    ctx.notes.push(format!(
+        "exhaustive sub-space (ZCurve chunk arithmetic): every (n, part_count) with 1 <= n <= {}, 1 <= part_count <= {}",
+        bound,
+        bound + 2
+    ));
+    // (3) random streams
+    for _ in 0..ctx.budget(350, 11000) {
+        gen_hil(ctx);
+    }
+    for _ in 0..ctx.budget(400, 12000) {
+        gen_wq(ctx);
+    }
+    for _ in 0..ctx.budget(350, 11000) {
+        gen_zc(ctx);
+    }
+    // (4) malformed stream
+    for _ in 0..ctx.budget(20, 200) {
+        let n = 1 + ctx.rng.usize(5);
+        let (c, _) = gen_points(ctx, n, 2, true);
+        let (w, _) = gen_weights(ctx, n, true);
+        let extra = ctx.rng.usize(40);
+        match ctx.rng.usize(5) {
+            0 => run_op(ctx, &format!("hil 2 1 {} 2 {} {} {}", 33 + extra, n, fmt_f(&c), fmt_f(&w))),
+            1 => run_op(ctx, &format!("hil 2 1 5 0 {} {} {}", n, fmt_f(&c), fmt_f(&w))),
+            2 => run_op(ctx, &format!("zc 2 1 3 0 {} {}", n, fmt_f(&c))),
+            3 => run_op(ctx, &format!("zc 2 1 {} 2 {} {}", 70 + extra, n, fmt_f(&c))),
+            _ => run_op(ctx, &format!("zc 2 1 3 {} 0", extra % 3)),
+        }
+        ctx.count("malformed");
+    }
+    let _ = hex(0.0);
 }
